@@ -509,7 +509,7 @@ def interleaved(run_a, run_b, repo=None, max_events=3000, every=1, opcodes=False
     lines is thereby exposed to a complete foreign call in between - the schedules a 16-thread stress run hits only by luck."""
     import threading
     prefix = os.path.join(repo or os.environ.get("VERIF_REPO", "/repo"), "webauthn") + os.sep
-    outs_b, state = [], {"busy": False, "n": 0, "k": 0}
+    outs_b, state, pending = [], {"busy": False, "n": 0, "k": 0}, []
 
     def local_trace(frame, event, arg):
         if opcodes:
@@ -519,9 +519,11 @@ def interleaved(run_a, run_b, repo=None, max_events=3000, every=1, opcodes=False
             if state["k"] % every == 0:
                 state["busy"] = True
                 state["n"] += 1
-                t = threading.Thread(target=lambda: outs_b.append(run_b()))
+                t = threading.Thread(target=lambda: outs_b.append(run_b()), daemon=True)
                 t.start()
-                t.join()
+                t.join(3.0)          # (B waiting for a lock that A holds is no finding: A goes on, B finishes when it can)
+                if t.is_alive():
+                    pending.append(t)
                 state["busy"] = False
         return local_trace
 
@@ -546,9 +548,11 @@ def interleaved(run_a, run_b, repo=None, max_events=3000, every=1, opcodes=False
                 return
             state["busy"] = True
             state["n"] += 1
-            t = threading.Thread(target=lambda: outs_b.append(run_b()))
+            t = threading.Thread(target=lambda: outs_b.append(run_b()), daemon=True)
             t.start()
-            t.join()
+            t.join(3.0)
+            if t.is_alive():
+                pending.append(t)
             state["busy"] = False
         mon.use_tool_id(tool, "verif-interleave")
         mon.register_callback(tool, mon.events.INSTRUCTION, on_instruction)
@@ -559,6 +563,8 @@ def interleaved(run_a, run_b, repo=None, max_events=3000, every=1, opcodes=False
             mon.set_events(tool, 0)
             mon.register_callback(tool, mon.events.INSTRUCTION, None)
             mon.free_tool_id(tool)
+            for t in pending:
+                t.join(20.0)
         return a, outs_b, state["n"]
     old = sys.gettrace()
     sys.settrace(global_trace)
@@ -566,6 +572,8 @@ def interleaved(run_a, run_b, repo=None, max_events=3000, every=1, opcodes=False
         a = run_a()
     finally:
         sys.settrace(old)
+        for t in pending:
+            t.join(20.0)
     return a, outs_b, state["n"]
 
 
